@@ -51,6 +51,56 @@ def run(ctx):
     rest(ctx)
 
 
+def machinery(ctx, rule):
+    """Restreamed: on every path the inner construct runs on a RestreamedBytesIO(stream, decoder, decoderunit, encoder, encoderunit) made in this
+    call, which is closed afterwards (close refuses leftovers, R4); nothing touches the outer stream or the wrapper's internals directly.
+    Transformed: parse reads decodeamount (or everything), decodes once and parses the result; build builds into a scratch stream,
+    encodes its whole content once and writes it."""
+    sub = N.selfattr("subcon")
+    want_args = (STREAM, N.selfattr("decoder"), N.selfattr("decoderunit"), N.selfattr("encoder"), N.selfattr("encoderunit"))
+    for meth, m in (("_parse", "_parsereport"), ("_build", "_build")):
+        fi, paths = own_method_paths(ctx, "Restreamed", meth)
+        ok = bool(paths)
+        for p in paths:
+            new = [e for e in p.events if e.kind == "NEWSTREAM"]
+            subs = [e for e in p.events if e.kind == "SUB"]
+            ok = ok and len(new) == 1 and new[0]["cls"] == "RestreamedBytesIO" and tuple(new[0]["args"]) == want_args \
+                and len(subs) == 1 and subs[0]["m"] == m and subs[0]["target"] == sub and subs[0]["stream"] == new[0]["res"] \
+                and not any(e.kind in ("READ", "WRITE", "SEEK", "TELL", "READALL") for e in p.events) \
+                and not any(e.kind in ("ATTRSET", "STORE", "MUT", "SETATTR") for e in p.events)
+            if p.returns:
+                cl = [e for e in p.events if e.kind == "RAWIO" and e["method"] == "close" and e["stream"] == new[0]["res"]] if new else []
+                ok = ok and len(cl) == 1 and p.events.index(cl[0]) > p.events.index(subs[0])
+        ctx.ob(rule, fi, ok, "Restreamed.%s runs the inner construct on a fresh RestreamedBytesIO over the incoming stream on every path, closes it afterwards, and touches nothing else" % meth, key="Restreamed %s" % meth)
+        ctx.ob(rule, fi, len([p for p in paths if p.returns]) == 1, "Restreamed.%s has a single successful path (no fast path around the wrapper)" % meth, key="Restreamed %s single path" % meth)
+    fi, paths = own_method_paths(ctx, "Transformed", "_parse")
+    ok = bool(paths)
+    for p in paths:
+        if not p.returns or p.of("UNDEF"):
+            continue
+        subs = [e for e in p.events if e.kind == "SUB"]
+        new = [e for e in p.events if e.kind == "NEWSTREAM"]
+        dec = [e for e in p.events if e.kind == "CALL" and e["func"] == N.selfattr("decodefunc")]
+        ok = ok and len(subs) == 1 and len(new) == 1 and len(dec) == 1 and subs[0]["stream"] == new[0]["res"] and tuple(new[0]["args"]) == (dec[0]["res"],) \
+            and dec[0]["args"][0][0] in ("read", "readall")
+    ctx.ob(rule, fi, ok, "Transformed._parse decodes what it read once and parses exactly the decoded bytes", key="Transformed _parse")
+    rd = [e for p in paths for e in p.events if e.kind == "READ"]
+    ctx.ob(rule, fi, bool(rd) and all(e["length"] == N.selfattr("decodeamount") for e in rd), "Transformed._parse reads decodeamount bytes when an amount is given", key="Transformed _parse amount")
+    fi, paths = own_method_paths(ctx, "Transformed", "_build")
+    ok = bool(paths)
+    for p in paths:
+        if not p.returns:
+            continue
+        subs = [e for e in p.events if e.kind == "SUB"]
+        wr = [e for e in p.events if e.kind == "WRITE"]
+        enc = [e for e in p.events if e.kind == "CALL" and e["func"] == N.selfattr("encodefunc")]
+        ok = ok and len(subs) == 1 and len(wr) == 1 and len(enc) == 1 and subs[0]["stream"][0] == "newstream" and enc[0]["args"] == (("getvalue", subs[0]["stream"]),) \
+            and wr[0]["data"] == enc[0]["res"] and wr[0]["stream"] == STREAM
+    ctx.ob(rule, fi, ok, "Transformed._build encodes the whole scratch output once and writes exactly that", key="Transformed _build")
+    amt = [p for p in paths if p.outcome[0] == "raise" and any(N.contains(c, N.selfattr("encodeamount")) for c in p.guards())]
+    ctx.ob(rule, fi, bool(amt), "Transformed._build rejects output whose length differs from encodeamount", key="Transformed _build amount")
+
+
 def check_macros(ctx, names, R1, R2, R4):
     M = ctx.model
     sites = 0
@@ -212,6 +262,9 @@ def rest(ctx):
     # ---- R5: the helpers themselves (MSB-first two's complement, byte groups)
     from . import C10_helpers
     C10_helpers.run(ctx, "C10.R5")
+    # ---- R6: the two machines the macros instantiate: the inner construct only ever sees the decoded view
+    machinery(ctx, "C10.R6")
+    ctx.floor("C10.R6", 8)
     ctx.floor("C10.R3", 6)
 
     # positive control: swapped roles in the streaming branch
